@@ -62,10 +62,22 @@ def hist_mask(rng):
                         sentinel=rng.choice(['0', '0', 'default']) if dt.startswith('i') else '0')
     else:
         mk = gen.MapCfg('k', 'wide', c.covord, c.spord, maxbits=rng.choice([8, 9, 16, 20]))
+    if rng.random() < 0.35 and c.spord > 0:
+        # a mask map with ANOTHER nside_coverage (same nside_sparse): legal, the coverage pixel numbers of the
+        # two maps are then unrelated (seeded change C12d indexed the mask's coverage mask with the map's)
+        mk.covord = rng.choice([o for o in range(0, c.spord + 1) if o != c.covord and
+                                (mk.kind != 'packed')])
     h = [c.line(), mk.line()]
     focus = fill(rng, c, h)
+    kfocus = focus
+    if mk.covord != c.covord and focus is not None:
+        d = mk.covord - c.covord
+        if d > 0:
+            kfocus = sorted({k * 4 ** d + rng.randrange(4 ** d) for k in focus for _ in range(2)})
+        else:
+            kfocus = sorted({k // 4 ** (-d) for k in focus})
     for _ in range(rng.randint(1, 4)):
-        h.append(gen.upd_line(rng, mk, focus=focus))
+        h.append(gen.upd_line(rng, mk, focus=kfocus))
     carry = None
     if mk_kind == 'wide' and mk.nbytes >= 2 and rng.random() < 0.5:
         # a mask row whose bytes add up to 256 (bits 7 and 15), on a pixel the map holds: set membership, not a sum
